@@ -159,3 +159,75 @@ fn empty_strings_unchanged() {
 
 // (A harness running filter::parse on `(a=\\XX)` for the five escaped metacharacters was tried and did not finish
 //  under CBMC in 30 minutes -- nom's alt/fold_many0 with Vec growth; there is no grammar-level lane, see DESIGN.md C08.)
+
+//@append src/filter.rs
+// ---- leaf functions of the filter module that are private to it (C08): appended to the copied file
+#[cfg(kani)]
+mod verif_k {
+    use super::*;
+
+    // RFC 4511 4.5.1: greaterOrEqual [5], lessOrEqual [6], approxMatch [8]
+    #[kani::proof]
+    fn filtertag_numbers() {
+        assert!(filtertag(b">=") == 5);
+        assert!(filtertag(b"<=") == 6);
+        assert!(filtertag(b"~=") == 8);
+    }
+
+    // the assertion-value character set: everything except NUL ( ) *   (every byte)
+    #[kani::proof]
+    fn is_value_char_all_bytes() {
+        let c: u8 = kani::any();
+        assert!(is_value_char(&c) == !(c == 0 || c == b'(' || c == b')' || c == b'*'));
+    }
+
+    // RFC 4512 1.4 number = DIGIT / ( LDIGIT 1*DIGIT ): no superfluous leading zero (bounded: 3 bytes)
+    #[kani::proof]
+    #[kani::unwind(5)]
+    fn number_lexer_len3() {
+        let b: [u8; 3] = kani::any();
+        let r = number(&b[..]);
+        let d = |c: u8| c >= b'0' && c <= b'9';
+        let k = if !d(b[0]) { 0 } else if !d(b[1]) { 1 } else if !d(b[2]) { 2 } else { 3 };
+        if k == 0 { assert!(r.is_err()); }
+        else if k > 1 && b[0] == b'0' { assert!(r.is_err()); }
+        else { match r { Ok((rest, m)) => { assert!(m.len() == k && rest.len() == 3 - k); } Err(_) => { assert!(false); } } }
+    }
+
+    fn is_alpha(c: u8) -> bool { (c >= b'a' && c <= b'z') || (c >= b'A' && c <= b'Z') }
+    fn is_digit(c: u8) -> bool { c >= b'0' && c <= b'9' }
+    // RFC 4512 1.4 keystring = leadkeychar *keychar  (ALPHA then ALPHA / DIGIT / HYPHEN)  (bounded: 3 bytes)
+    #[kani::proof]
+    #[kani::unwind(5)]
+    fn descr_lexer_len3() {
+        let b: [u8; 3] = kani::any();
+        let r = descr(&b[..]);
+        let kc = |c: u8| is_alpha(c) || is_digit(c) || c == b'-';
+        if !is_alpha(b[0]) { assert!(r.is_err()); }
+        else {
+            let k = if !kc(b[1]) { 1 } else if !kc(b[2]) { 2 } else { 3 };
+            match r { Ok((rest, m)) => { assert!(m.len() == k && rest.len() == 3 - k); } Err(_) => { assert!(false); } }
+        }
+    }
+    // the value lexer with the hex un-escaper (bounded: 3 bytes): a run of value characters, each \XX pair decoded,
+    // an incomplete or non-hex escape is an error
+    #[kani::proof]
+    #[kani::unwind(6)]
+    fn unescaped_lexer_len3() {
+        let b: [u8; 3] = kani::any();
+        let r = unescaped(&b[..]);
+        let vc = |c: u8| !(c == 0 || c == b'(' || c == b')' || c == b'*');
+        let hx = |c: u8| is_digit(c) || (c >= b'a' && c <= b'f') || (c >= b'A' && c <= b'F');
+        let hv = |c: u8| if is_digit(c) { c - b'0' } else if c >= b'a' { c - b'a' + 10 } else { c - b'A' + 10 };
+        // reference for the all-value-chars case with at most one escape at the start
+        if vc(b[0]) && vc(b[1]) && vc(b[2]) {
+            if b[0] == b'\\' {
+                if hx(b[1]) && hx(b[2]) {
+                    match r { Ok((rest, v)) => { assert!(rest.len() == 0 && v.len() == 1 && v[0] == hv(b[1]) * 16 + hv(b[2])); } Err(_) => { assert!(false); } }
+                } else { assert!(r.is_err()); }
+            } else if b[1] != b'\\' && b[2] != b'\\' {
+                match r { Ok((rest, v)) => { assert!(rest.len() == 0 && v.len() == 3 && v[0] == b[0] && v[1] == b[1] && v[2] == b[2]); } Err(_) => { assert!(false); } }
+            } else { assert!(r.is_err()); }   // an escape that cannot complete within the value
+        }
+    }
+}
